@@ -263,6 +263,137 @@ theorem decorrelate_null_of_existing_group_unsound :
     scalarDecorrelated (fun m => if m.length = 2 then .null else .int m.length) (.int 0)
         (fun a b => eq3 (col 0 a) (col 0 b)) [.int 1] [[.int 1], [.int 1]] = .int 0 := by decide
 
+/-- **`unnest`: uncorrelated `x.k IN (subquery)`** becomes LEFT JOIN on the subquery DE-DUPLICATED on its value
+    (`s'`: same rows as a set, at most one match per outer row) + `WHERE s'.value IS NOT NULL`, for all tables and
+    with SQL's three-valued IN (NULL keys and NULL elements never match) -/
+theorem unnest_in_subquery (key : Row → Val) (l s s' : Table) (w : Nat)
+    (hw : ∀ a ∈ l, a.length = w) (hset : ∀ b, b ∈ s' ↔ b ∈ s)
+    (hu : ∀ a ∈ l, (matchesOf (fun a b => eq3 (key a) (col 0 b)) a s').length ≤ 1) :
+    project (fun row => row.take w)
+        (select (fun row => not3 (isNull3 (col w row))) (leftJoin (fun a b => eq3 (key a) (col 0 b)) l s' 1))
+      = select (fun a => in3 (key a) (s.map (col 0))) l := by
+  rw [semiJoin_as_dedup_leftJoin _ l s s' w hw hset hu (fun a b h => eq3_true_not_null _ _ h)]
+  simp only [semiJoin, select, isTrue_in3, List.any_map]
+  rfl
+
+/-- **correlated EXISTS / IN** (`decorrelate`): `EXISTS (SELECT … FROM s WHERE on(outer, s))` is the same LEFT JOIN
+    against a version of the subquery de-duplicated on the correlation key -/
+theorem unnest_exists_subquery (on : Row → Row → B3) (l s s' : Table) (w : Nat)
+    (hw : ∀ a ∈ l, a.length = w) (hset : ∀ b, b ∈ s' ↔ b ∈ s)
+    (hu : ∀ a ∈ l, (matchesOf on a s').length ≤ 1)
+    (hnn : ∀ a b, Bag.isTrue (on a b) = true → (col 0 b).isNull = false) :
+    project (fun row => row.take w) (select (fun row => not3 (isNull3 (col w row))) (leftJoin on l s' 1))
+      = select (fun a => exists3 (select (fun b => on a b) s)) l := by
+  rw [semiJoin_as_dedup_leftJoin on l s s' w hw hset hu hnn]
+  simp only [semiJoin]
+  unfold select
+  congr 1
+  funext a
+  exact (isTrue_exists3_select (fun b => on a b) s).symm
+
+example : select (fun a => in3 (col 0 a) ([[Val.int 1], [.null], [.int 1]].map (col 0))) [[.int 1], [.int 2], [.null]]
+    = [[.int 1]] := by decide
+
+/-- NECESSITY of the de-duplication (the seeded `unnest()` regression and the clean-tree finding
+    C03-decorrelate-exists-keeps-extra-group-keys): joined against the subquery grouped by MORE keys than the
+    compared value — value 1 appears in two groups — the matching outer row comes back twice -/
+theorem in_subquery_as_join_needs_distinct :
+    project (fun row => row.take 1)
+        (select (fun row => not3 (isNull3 (col 1 row)))
+          (leftJoin (fun a b => eq3 (col 0 a) (col 0 b)) [[.int 1]] [[.int 1], [.int 1]] 1))
+      = [[.int 1], [.int 1]] ∧
+    select (fun a => in3 (col 0 a) ([[Val.int 1], [.int 1]].map (col 0))) [[.int 1]] = [[.int 1]] := by decide
+
+/-- WHY `unnest` bails out on NOT IN: with a NULL in the subquery `x NOT IN (…)` is never TRUE, the anti join keeps
+    the row -/
+theorem not_in_with_null_not_antijoin :
+    select (fun a => not3 (in3 (col 0 a) ([[Val.int 2], [.null]].map (col 0)))) [[.int 1]] = [] ∧
+    antiJoin (fun a b => eq3 (col 0 a) (col 0 b)) [[.int 1]] [[.int 2], [.null]] = [[.int 1]] := by decide
+
+-- ------------------------------------------------------------------------------------------ pushdown_dnf
+/-- what `pushdown_dnf` may push into source `l`: a predicate IMPLIED by the whole WHERE clause (the original stays
+    in place) — the result is unchanged for all tables -/
+theorem pushdown_dnf_common_predicate (on : Row → Row → B3) (c q : Row → B3) (l r : Table)
+    (h : ∀ a b, Bag.isTrue (c (a ++ b)) = true → Bag.isTrue (q a) = true) :
+    select c (innerJoin on l r) = select c (innerJoin on (select q l) r) :=
+  select_innerJoin_implied_left on c q l r h
+
+/-- the disjunction of one conjunct per block IS implied by a DNF: (A₁ ∧ p₁) ∨ (A₂ ∧ p₂) ⇒ p₁ ∨ p₂ (3-valued) -/
+theorem dnf_implies_disjunction_of_common (a1 p1 a2 p2 : B3)
+    (h : Bag.isTrue (or3 (and3 a1 p1) (and3 a2 p2)) = true) : Bag.isTrue (or3 p1 p2) = true := by
+  rw [isTrue_or3, isTrue_and3, isTrue_and3] at h
+  rw [isTrue_or3]
+  simp only [Bool.or_eq_true, Bool.and_eq_true] at h ⊢
+  cases h with
+  | inl h1 => exact Or.inl h1.2
+  | inr h2 => exact Or.inr h2.2
+
+/-- known finding C11-or-in-where-over-join (pushdown_dnf skips a block that mentions a second table and pushes the
+    OTHER block alone): WHERE (z.b * y.a) IS NULL OR y.a BETWEEN 0 AND 0 over y = {(NULL)}, z = {(NULL)} keeps the
+    row; pushing `y.a BETWEEN 0 AND 0` into y empties it.  One block is NOT implied by the disjunction. -/
+theorem pushdown_dnf_single_branch_unsound :
+    select (fun row => or3 (some ((col 0 row).isNull || (col 1 row).isNull)) (eq3 (col 0 row) (.int 0)))
+        (innerJoin (fun _ _ => some true) [[.null]] [[.null]]) = [[.null, .null]] ∧
+    select (fun row => or3 (some ((col 0 row).isNull || (col 1 row).isNull)) (eq3 (col 0 row) (.int 0)))
+        (innerJoin (fun _ _ => some true) (select (fun a => eq3 (col 0 a) (.int 0)) [[.null]]) [[.null]]) = [] := by
+  decide
+
+-- ------------------------------------------------------------------------------------------ pushdown_projections
+/-- pruning columns of a derived table that the outer query does not read: π_g ∘ π_f = π_g ∘ π_f' whenever g reads
+    only what both keep — for all tables, as sequences -/
+theorem pushdown_projections_preserves (f f' g : Row → Row) (t : Table) (h : ∀ r, g (f r) = g (f' r)) :
+    project g (project f t) = project g (project f' t) := by
+  simp [project, List.map_map, Function.comp, h]
+
+/-- NECESSITY of the DISTINCT guard: under DISTINCT the pruned column decides how many rows survive -/
+theorem pushdown_projections_needs_no_distinct :
+    project (fun r => [col 0 r]) (distinct (project (fun r => [col 0 r, col 1 r]) [[.int 1, .int 1], [.int 1, .int 2]]))
+      ≠ project (fun r => [col 0 r]) (distinct (project (fun r => [col 0 r]) [[.int 1, .int 1], [.int 1, .int 2]])) := by
+  decide
+
+theorem projection_guards_present :
+    ProjAtom.distinct ∈ projKeepAll ∧ ProjAtom.intersectExcept ∈ projKeepAll := by decide
+
+-- ------------------------------------------------------------------------------------------ eliminate_subqueries / eliminate_ctes
+/-- turning a derived table into a CTE appended at the END of a well-scoped WITH list keeps it well scoped, provided
+    the new body references only names already in the list (definitional in the bag IR: a CTE is a `let`) -/
+theorem append_cte_keeps_scoping (ctes : List (String × List String)) (n : String) (refs : List String)
+    (h : wellScoped ctes = true) (hr : ∀ r ∈ refs, r ∈ ctes.map (·.1)) :
+    wellScoped (ctes ++ [(n, refs)]) = true := by
+  unfold wellScoped at *
+  suffices H : ∀ (seen : List String), wellScopedFrom seen ctes = true →
+      (∀ r ∈ refs, r ∈ seen ∨ r ∈ ctes.map (·.1)) → wellScopedFrom seen (ctes ++ [(n, refs)]) = true from
+    H [] h (fun r hr' => Or.inr (hr r hr'))
+  clear h hr
+  induction ctes with
+  | nil =>
+    intro seen _ hrefs
+    simp only [List.nil_append, wellScopedFrom, Bool.and_true, List.all_eq_true]
+    intro r hr'
+    cases hrefs r hr' with
+    | inl h1 => simpa using h1
+    | inr h2 => simp at h2
+  | cons c cs ih =>
+    intro seen hws hrefs
+    obtain ⟨cn, crefs⟩ := c
+    simp only [List.cons_append, wellScopedFrom, Bool.and_eq_true] at hws ⊢
+    refine ⟨hws.1, ih (cn :: seen) hws.2 (fun r hr' => ?_)⟩
+    cases hrefs r hr' with
+    | inl h1 => exact Or.inl (List.mem_cons_of_mem _ h1)
+    | inr h2 =>
+      simp only [List.map_cons, List.mem_cons] at h2
+      cases h2 with
+      | inl h3 => exact Or.inl (by simp [h3])
+      | inr h4 => exact Or.inr h4
+
+/-- known finding C03-eliminate-subqueries-forward-cte-reference, stated precisely: de-duplicating a derived table
+    inside an EARLIER CTE against a LATER CTE with the same body yields the WITH list
+    [z_2; c1 refs {z_2, c2}; c2], which is not well scoped -/
+theorem eliminate_subqueries_forward_reference_witness :
+    wellScoped [("c1", []), ("c2", [])] = true ∧
+    wellScoped [("z_2", []), ("c1", ["z_2", "c2"]), ("c2", [])] = false ∧
+    wellScoped [("z_2", []), ("c2", []), ("c1", ["z_2", "c2"])] = true := by decide
+
 -- ------------------------------------------------------------------------------------------ eliminate_joins
 /-- LEFT join on a key that is unique in the joined source, none of whose columns is used: the join disappears.
     Stated for ALL tables; uniqueness enters as "at most one match per left row" … -/
